@@ -220,6 +220,7 @@ def _rotvecs(rng, n):
     for a in dirs:
         for mag in mags:
             out.append(a * mag)
+    k = n // 3
     for _ in range(k):                               # dense around |v| = 1e-3 (|v|^2 = 1e-6)
         u = _unit(rng)
         mag = 1e-3 * (1 + rng.choice([1e-15, 1e-12, 1e-9, 1e-6, 1e-3, 1e-1]) * rng.uniform(-1, 1))
